@@ -1,0 +1,114 @@
+//go:build verif
+
+package fp
+
+// Contracts for the methods of StateT (state.go), checked by /verif/govc.  Comment-only file.
+//
+// StateT[S, A] = func(S) (Try[A], S).  Every lemma runs the receiver r on an arbitrary start state s;
+// (at, ns) := r(s) is the receiver's result and the post-run state.  Property C17 / C02:
+//   * on success every Recover* variant returns (at, ns) untouched and calls no handler;
+//   * on failure the handler receives the error at.Failed().Get() and -- where it takes a state -- the
+//     post-failure state ns; ns is also the state that is returned (…With variants: the state the
+//     recovery program is started from);
+//   * all variants agree with one another (each one is the obvious special case of the next).
+// The receiver r is a function-typed parameter, so EqT also checks that it is run exactly once, on s.
+
+// ---- Run / Exec / Eval --------------------------------------------------------------------------
+
+//@ lemma stateTRunDef[S, A any](r StateT[S, A], s S)
+//@   prop C17 C02
+//@   ensures EqT(verifspec.P2(r.Run(s)), verifspec.P2(r(s)))
+//
+//@ lemma stateTExecDef[S, A any](r StateT[S, A], s S)
+//@   prop C17 C02
+//@   ensures verifspec.P2(r(s)).A.IsSuccess() ==> EqT(r.Exec(s), func() Try[S] { _, ns := r(s); return Success(ns) }())
+//@   ensures verifspec.P2(r(s)).A.IsFailure() ==> EqT(r.Exec(s), func() Try[S] { at, _ := r(s); return Failure[S](at.Failed().Get()) }())
+//
+//@ lemma stateTEvalDef[S, A any](r StateT[S, A], s S)
+//@   prop C17 C02
+//@   ensures EqT(r.Eval(s), func() Try[A] { at, _ := r(s); return at }())
+
+// ---- Recover* : successes are untouched, no handler is called -------------------------------------
+
+//@ lemma stateTRecoverSuccess[S, A any](r StateT[S, A], s S, f func(error) A, ft func(error) Try[A], fs func(S, error) A, fst func(S, error) Try[A], fw func(error) StateT[S, A], p func(error) bool)
+//@   prop C17 C02
+//@   requires verifspec.P2(r(s)).A.IsSuccess()
+//@   ensures EqT(verifspec.P2(r.Recover(f)(s)), verifspec.P2(r(s)))
+//@   ensures EqT(verifspec.P2(r.RecoverT(ft)(s)), verifspec.P2(r(s)))
+//@   ensures EqT(verifspec.P2(r.RecoverWithState(fs)(s)), verifspec.P2(r(s)))
+//@   ensures EqT(verifspec.P2(r.RecoverWithStateT(fst)(s)), verifspec.P2(r(s)))
+//@   ensures EqT(verifspec.P2(r.RecoverWith(fw)(s)), verifspec.P2(r(s)))
+//@   ensures EqT(verifspec.P2(r.RecoverCase(p, f)(s)), verifspec.P2(r(s)))
+//@   ensures EqT(verifspec.P2(r.RecoverCaseT(p, ft)(s)), verifspec.P2(r(s)))
+//@   ensures EqT(verifspec.P2(r.RecoverCaseWith(p, fw)(s)), verifspec.P2(r(s)))
+
+// ---- Recover* : on failure the handler gets the error and the post-failure state ns; ns is returned --
+
+//@ lemma stateTRecoverFailure[S, A any](r StateT[S, A], s S, f func(error) A)
+//@   prop C17 C02
+//@   requires verifspec.P2(r(s)).A.IsFailure()
+//@   ensures EqT(verifspec.P2(r.Recover(f)(s)), verifspec.P2(func() (Try[A], S) { at, ns := r(s); return Success(f(at.Failed().Get())), ns }()))
+//
+//@ lemma stateTRecoverTFailure[S, A any](r StateT[S, A], s S, f func(error) Try[A])
+//@   prop C17 C02
+//@   requires verifspec.P2(r(s)).A.IsFailure()
+//@   ensures EqT(verifspec.P2(r.RecoverT(f)(s)), verifspec.P2(func() (Try[A], S) { at, ns := r(s); return f(at.Failed().Get()), ns }()))
+//
+//@ lemma stateTRecoverWithStateFailure[S, A any](r StateT[S, A], s S, f func(S, error) A)
+//@   prop C17 C02
+//@   requires verifspec.P2(r(s)).A.IsFailure()
+//@   ensures EqT(verifspec.P2(r.RecoverWithState(f)(s)), verifspec.P2(func() (Try[A], S) { at, ns := r(s); return Success(f(ns, at.Failed().Get())), ns }()))
+//
+//@ lemma stateTRecoverWithStateTFailure[S, A any](r StateT[S, A], s S, f func(S, error) Try[A])
+//@   prop C17 C02
+//@   requires verifspec.P2(r(s)).A.IsFailure()
+//@   ensures EqT(verifspec.P2(r.RecoverWithStateT(f)(s)), verifspec.P2(func() (Try[A], S) { at, ns := r(s); return f(ns, at.Failed().Get()), ns }()))
+//
+//@ lemma stateTRecoverWithFailure[S, A any](r StateT[S, A], s S, f func(error) StateT[S, A])
+//@   prop C17 C02
+//@   requires verifspec.P2(r(s)).A.IsFailure()
+//@   ensures EqT(verifspec.P2(r.RecoverWith(f)(s)), verifspec.P2(func() (Try[A], S) { at, ns := r(s); return f(at.Failed().Get())(ns) }()))
+//
+//@ lemma stateTRecoverCaseFailure[S, A any](r StateT[S, A], s S, p func(error) bool, f func(error) A)
+//@   prop C17 C02
+//@   requires verifspec.P2(r(s)).A.IsFailure()
+//@   ensures EqT(verifspec.P2(r.RecoverCase(p, f)(s)), verifspec.P2(func() (Try[A], S) { at, ns := r(s); if p(at.Failed().Get()) { return Success(f(at.Failed().Get())), ns }; return at, ns }()))
+//
+//@ lemma stateTRecoverCaseTFailure[S, A any](r StateT[S, A], s S, p func(error) bool, f func(error) Try[A])
+//@   prop C17 C02
+//@   requires verifspec.P2(r(s)).A.IsFailure()
+//@   ensures EqT(verifspec.P2(r.RecoverCaseT(p, f)(s)), verifspec.P2(func() (Try[A], S) { at, ns := r(s); if p(at.Failed().Get()) { return f(at.Failed().Get()), ns }; return at, ns }()))
+//
+//@ lemma stateTRecoverCaseWithFailure[S, A any](r StateT[S, A], s S, p func(error) bool, f func(error) StateT[S, A])
+//@   prop C17 C02
+//@   requires verifspec.P2(r(s)).A.IsFailure()
+//@   ensures EqT(verifspec.P2(r.RecoverCaseWith(p, f)(s)), verifspec.P2(func() (Try[A], S) { at, ns := r(s); if p(at.Failed().Get()) { return f(at.Failed().Get())(ns) }; return at, ns }()))
+
+// ---- consistency across the variants ---------------------------------------------------------------
+
+//@ lemma stateTRecoverConsistent[S, A any](r StateT[S, A], s S, f func(error) A, ft func(error) Try[A], fs func(S, error) A, fst func(S, error) Try[A], fw func(error) StateT[S, A])
+//@   prop C17 C02
+//@   ensures EqT(verifspec.P2(r.Recover(f)(s)), verifspec.P2(r.RecoverT(func(e error) Try[A] { return Success(f(e)) })(s)))
+//@   tag recover-is-recoverT
+//@   ensures EqT(verifspec.P2(r.Recover(f)(s)), verifspec.P2(r.RecoverWithState(func(_ S, e error) A { return f(e) })(s)))
+//@   tag recover-is-recoverWithState
+//@   ensures EqT(verifspec.P2(r.RecoverT(ft)(s)), verifspec.P2(r.RecoverWithStateT(func(_ S, e error) Try[A] { return ft(e) })(s)))
+//@   tag recoverT-is-recoverWithStateT
+//@   ensures EqT(verifspec.P2(r.RecoverWithState(fs)(s)), verifspec.P2(r.RecoverWithStateT(func(x S, e error) Try[A] { return Success(fs(x, e)) })(s)))
+//@   tag recoverWithState-is-recoverWithStateT
+//@   ensures EqT(verifspec.P2(r.RecoverWithStateT(fst)(s)), verifspec.P2(r.RecoverWith(func(e error) StateT[S, A] { return func(x S) (Try[A], S) { return fst(x, e), x } })(s)))
+//@   tag recoverWithStateT-is-recoverWith
+//@   ensures EqT(verifspec.P2(r.RecoverWithState(fs)(s)), verifspec.P2(r.RecoverWith(func(e error) StateT[S, A] { return func(x S) (Try[A], S) { return Success(fs(x, e)), x } })(s)))
+//@   tag recoverWithState-is-recoverWith
+//@   ensures EqT(verifspec.P2(r.RecoverCase(func(error) bool { return true }, f)(s)), verifspec.P2(r.Recover(f)(s)))
+//@   tag recoverCase-total
+//@   ensures EqT(verifspec.P2(r.RecoverCaseT(func(error) bool { return true }, ft)(s)), verifspec.P2(r.RecoverT(ft)(s)))
+//@   tag recoverCaseT-total
+//@   ensures EqT(verifspec.P2(r.RecoverCaseWith(func(error) bool { return true }, fw)(s)), verifspec.P2(r.RecoverWith(fw)(s)))
+//@   tag recoverCaseWith-total
+//@   ensures EqT(verifspec.P2(r.RecoverCase(func(error) bool { return false }, f)(s)), verifspec.P2(r(s)))
+//@   tag recoverCase-undefined
+//@   ensures EqT(verifspec.P2(r.RecoverCaseT(func(error) bool { return false }, ft)(s)), verifspec.P2(r(s)))
+//@   tag recoverCaseT-undefined
+//@   ensures EqT(verifspec.P2(r.RecoverCaseWith(func(error) bool { return false }, fw)(s)), verifspec.P2(r(s)))
+//@   tag recoverCaseWith-undefined
